@@ -1,9 +1,12 @@
 package ir
 
 import (
+	"go/constant"
 	"go/token"
 	"go/types"
+	"regexp"
 	"sort"
+	"strings"
 	"unicode"
 
 	"golang.org/x/tools/go/ssa"
@@ -54,6 +57,44 @@ func helpersOf(fn *ssa.Function) []*ssa.Function {
 	}
 	sort.Slice(out, func(i, j int) bool { return out[i].Pos() < out[j].Pos() })
 	return out
+}
+
+// ctxOwner: while set, a helper shared by several functions is read as part of this one.
+var ctxOwner *ssa.Function
+
+// InOwner runs f with transparent helpers read as parts of owner: the parameters of a helper that
+// several functions share render as the arguments at owner's call sites.
+func InOwner(owner *ssa.Function, f func()) {
+	old := ctxOwner
+	ctxOwner = owner
+	defer func() { ctxOwner = old }()
+	f()
+}
+
+// helpersCalledFrom lists the transparent helpers called (transitively, by direct calls) from the
+// body of fn itself, not from its closures.
+func helpersCalledFrom(fn *ssa.Function) []*ssa.Function {
+	var out []*ssa.Function
+	seen := map[*ssa.Function]bool{}
+	var visit func(f *ssa.Function)
+	visit = func(f *ssa.Function) {
+		for _, b := range f.Blocks {
+			for _, in := range b.Instrs {
+				if h := helperCallee(in); h != nil && !seen[h] {
+					seen[h] = true
+					out = append(out, h)
+					visit(h)
+				}
+			}
+		}
+	}
+	visit(fn)
+	return out
+}
+
+// WithHelpers is fn followed by the transparent helpers that are part of it.
+func WithHelpers(fn *ssa.Function) []*ssa.Function {
+	return append([]*ssa.Function{fn}, helpersOf(fn)...)
 }
 
 // LogicalOwner maps a transparent helper to the function it is part of.
@@ -206,7 +247,23 @@ func helperArg(q *ssa.Parameter) ssa.Value {
 	defer delete(helperArgBusy, q)
 	var first ssa.Value
 	var firstS string
-	for _, s := range hi.sites {
+	sites := hi.sites
+	if ctxOwner != nil {
+		// inside InOwner: only the call sites that execute as part of that function count
+		var mine []ssa.CallInstruction
+		for _, s := range hi.sites {
+			for _, o := range siteOwners(s) {
+				if o == ctxOwner {
+					mine = append(mine, s)
+					break
+				}
+			}
+		}
+		if len(mine) > 0 {
+			sites = mine
+		}
+	}
+	for _, s := range sites {
 		args := s.Common().Args
 		if idx >= len(args) {
 			return nil
@@ -285,7 +342,6 @@ func exitFacts(h *ssa.Function) []Fact {
 	return factsAtBlockOwn(ret)
 }
 
-
 // CtxValue is a value inside a transparent helper seen from ONE of its call sites: it renders with
 // the helper's parameters replaced by that site's arguments. The store index uses it to list the
 // writes of a helper that is called several times with different arguments once per call site.
@@ -338,7 +394,6 @@ func sitesNeedingContext(h *ssa.Function) []ssa.CallInstruction {
 	return nil
 }
 
-
 // helperCallOf recognises `H(...)` or `H(...)#i` where H is a transparent helper.
 func helperCallOf(v ssa.Value) (*ssa.Call, int) {
 	switch x := v.(type) {
@@ -369,6 +424,29 @@ func nilReturnsOf(h *ssa.Function, idx int) []*ssa.Return {
 			continue
 		}
 		if HasFact(factsAtBlockOwn(rt.Instr.Block()), "!eq("+Render(v)+",nil)") {
+			continue
+		}
+		// `if err == io.EOF { return .., err }`: equal to a package-level error value, hence non-nil
+		eqErr := false
+		for _, f := range factsAtBlockOwn(rt.Instr.Block()) {
+			rv := Render(v)
+			for _, pre := range []string{"eq(" + rv + ",", "eq("} {
+				if !strings.HasPrefix(f.Atom, pre) {
+					continue
+				}
+				other := strings.TrimSuffix(strings.TrimPrefix(f.Atom, pre), ")")
+				if pre == "eq(" {
+					if !strings.HasSuffix(other, ","+rv) {
+						continue
+					}
+					other = strings.TrimSuffix(other, ","+rv)
+				}
+				if packageErrorValue.MatchString(other) {
+					eqErr = true
+				}
+			}
+		}
+		if eqErr {
 			continue
 		}
 		if _, isMk := v.(*ssa.MakeInterface); isMk {
@@ -410,6 +488,20 @@ func withCallArgs(call *ssa.Call, f func()) {
 		}
 	}()
 	f()
+}
+
+// RenderAt renders v, a value of the function that call invokes, with that function's parameters
+// replaced by the arguments of the call: the value as the caller would have written it. Rules
+// about a quantity that crosses one private call boundary (which of the two functions selects
+// the field is an implementation detail) compare this rendering.
+func RenderAt(call ssa.CallInstruction, v ssa.Value) string {
+	c, ok := call.(*ssa.Call)
+	if !ok || c.Call.StaticCallee() == nil {
+		return Render(v)
+	}
+	out := ""
+	withCallArgs(c, func() { out = Render(v) })
+	return out
 }
 
 // nilResultFacts: the facts that hold whenever result idx of the helper call is nil
@@ -477,6 +569,9 @@ func inlineHelperResult(call *ssa.Call, idx, d int) (string, bool) {
 		if c, ok := v.(*ssa.Const); ok && (c.Value == nil || c.IsNil()) {
 			continue // zero/nil on a failure path
 		}
+		if c, ok := v.(*ssa.Const); ok && isZeroConst(c) && failingReturn(h, rt) {
+			continue // `return 0, nil, err`: the zero value that accompanies an error
+		}
 		vals = append(vals, v)
 	}
 	if len(vals) == 0 {
@@ -499,3 +594,35 @@ func inlineHelperResult(call *ssa.Call, idx, d int) (string, bool) {
 	}
 	return out, true
 }
+
+// isZeroConst: the zero value of a basic type.
+func isZeroConst(c *ssa.Const) bool {
+	if c.Value == nil {
+		return true
+	}
+	switch c.Value.Kind() {
+	case constant.Int, constant.Float, constant.Complex:
+		return constant.Sign(c.Value) == 0
+	case constant.String:
+		return constant.StringVal(c.Value) == ""
+	case constant.Bool:
+		return !constant.BoolVal(c.Value)
+	}
+	return false
+}
+
+// failingReturn: the function's last result is an error and this return does not return the nil
+// constant for it.
+func failingReturn(h *ssa.Function, rt Ret) bool {
+	res := h.Signature.Results()
+	if res.Len() == 0 || !types.Identical(res.At(res.Len()-1).Type(), types.Universe.Lookup("error").Type()) {
+		return false
+	}
+	last := rt.Results[len(rt.Results)-1]
+	if c, ok := last.(*ssa.Const); ok && c.IsNil() {
+		return false
+	}
+	return true
+}
+
+var packageErrorValue = regexp.MustCompile(`^[\w/]+\.(EOF|Err\w*|err[A-Z]\w*)$`)
